@@ -43,6 +43,7 @@ def run(rep, tier):
     helper_update(rep, F)
     sweep_split(rep, F)
     stitch_keeps_interiors(rep, F)
+    collection_contains_point(rep, F)
 
 
 def earcut_layout(rep, F):
@@ -404,3 +405,73 @@ def stitch_keeps_interiors(rep, F):
         else:
             rep.bad("R10.8", "stitch-interiors:shape", "a path returns %s, neither the input polygon nor Polygon::new(exterior, interiors)" % show(r)[:160], where=fn.loc())
     rep.floor("R10.8", "paths rebuilding the polygon", n_new, 1)
+
+
+def collection_contains_point(rep, F):
+    """R10.9: constrained triangulation of a collection keeps a triangle iff its centroid lies in SOME member: contains_point of the collection
+    impls of the triangulation requirement trait (Vec<G> and its slice twin &[G]) on collections of 0..3 members, with the members' own
+    answers as free booleans: the result is the disjunction, for every valuation."""
+    import itertools
+    rep.rule("R10.9", "TriangulationRequirementTrait::contains_point for Vec<G> and for &[G] (0..3 members, exact unrolling, every valuation of the members' answers): true exactly when some member contains the point")
+    TR = "geo::algorithm::triangulate_delaunay::private::TriangulationRequirementTrait"
+    n_ok = 0
+    impls = [im for im in F.impls if im.get("trait") == TR and (im["self_ty"].startswith("alloc::vec::Vec<") or im["self_ty"].startswith("&[") or im["self_ty"].startswith("&'a ["))]
+    for im in impls:
+        key = "Vec<G>" if im["self_ty"].startswith("alloc::vec::Vec") else "&[G]"
+        fn = F.impl_fn(im, "contains_point")
+        if fn is None:
+            rep.bad("R10.9", "contains_point:%s:anchor" % key, "no contains_point")
+            continue
+        bad = None
+        for n in range(0, 4):
+            members = tuple(("opaque", "m%d" % i) for i in range(n))
+            coll = ("call", "vec!", (("array", members),)) if key == "Vec<G>" else ("&", ("array", members))
+            try:
+                ex = Symex(F, concrete_iters=True, loop_bound=8, inline_crates=("geo",), max_depth=8)
+                ps = [p for p in ex.run(fn, args=[("&", coll), ("opaque", "p")]) if p.kind != "cut"]
+            except Unanalysable as e:
+                bad = "%d members: %s" % (n, e)
+                break
+            # every path: atoms are the members' answers; the result must be their disjunction
+            for p in ps:
+                if p.kind != "ret":
+                    bad = "%d members: a path panics" % n
+                    break
+                vals = {}
+                for t, v in p.pc:
+                    sh = show(t)
+                    m = re.search(r"contains_point\(&?\*?&?opaque\(m(\d)\)", sh.replace(" ", ""))
+                    if not m:
+                        m = re.search(r"opaque\(m(\d)\)", sh)
+                    if not m or "contains_point" not in sh:
+                        bad = "%d members: decides on %s, not on a member's contains_point" % (n, sh[:80])
+                        break
+                    vals[int(m.group(1))] = bool(v)
+                if bad:
+                    break
+                r = p.ret
+                if r not in (("const", True), ("const", False), ("const", 1), ("const", 0)):
+                    # the last member's answer may be returned as is
+                    sh = show(r)
+                    m = re.search(r"opaque\(m(\d)\)", sh)
+                    if "contains_point" in sh and m and not any(vals.values()):
+                        continue
+                    bad = "%d members: returns %s" % (n, sh[:80])
+                    break
+                res = bool(r[1])
+                known_true = any(vals.values())
+                all_false = len(vals) == n and not known_true
+                if res and not known_true:
+                    bad = "%d members answering %s: returns true although no member contains the point" % (n, vals)
+                    break
+                if not res and not all_false:
+                    bad = "%d members answering %s: returns false %s" % (n, vals, "although a member contains the point" if known_true else "without asking every member")
+                    break
+            if bad:
+                break
+        if bad:
+            rep.bad("R10.9", "contains_point:%s" % key, "%s: %s" % (key, bad), where=fn.loc())
+        else:
+            n_ok += 1
+            rep.ok("R10.9", "contains_point:%s[0..3 members]" % key)
+    rep.floor("R10.9", "collection impls of contains_point", n_ok, 2)
